@@ -357,14 +357,14 @@ type c12Setup struct {
 	UEAlloc bool     `json:"uealloc"`
 	EndM    bool     `json:"endm"`
 	HBMs    int      `json:"hb_ms"`
-	Steps   []string `json:"steps"` // hb | assoc | down | up | wait | reassoc | peerhbburst
+	Steps   []string `json:"steps"` // hb | assoc | assocnew (setup of a restarted peer: newer Recovery Time Stamp) | down | up | wait | peerhbburst
 }
 
 func genC12Setup(t *rapid.T) c12Setup {
 	c := c12Setup{UEAlloc: rapid.Bool().Draw(t, "uealloc"), EndM: rapid.Bool().Draw(t, "endm"), HBMs: rapid.SampledFrom([]int{0, 200, 300}).Draw(t, "hb")}
 	n := rapid.IntRange(2, 9).Draw(t, "n")
 	for i := 0; i < n; i++ {
-		c.Steps = append(c.Steps, rapid.SampledFrom([]string{"hb", "hb", "assoc", "assoc", "down", "up", "wait", "peerhbburst"}).Draw(t, "step"))
+		c.Steps = append(c.Steps, rapid.SampledFrom([]string{"hb", "hb", "assoc", "assoc", "assocnew", "down", "up", "wait", "peerhbburst"}).Draw(t, "step"))
 	}
 	return c
 }
@@ -426,6 +426,7 @@ func runC12Setup(c c12Setup, ev *Ev) error {
 	changed := time.Now().Add(-time.Second)
 	seq := uint32(10)
 	sawBoth := map[bool]bool{}
+	restarts := 0
 	for i, st := range c.Steps {
 		seq++
 		switch st {
@@ -473,8 +474,16 @@ func runC12Setup(c c12Setup, ev *Ev) error {
 					}
 				}
 			}
-		case "assoc":
-			o := run.Exec(opAssoc(0, seq))
+		case "assoc", "assocnew":
+			aop := opAssoc(0, seq)
+			if st == "assocnew" {
+				// the peer restarted: its Recovery Time Stamp is newer than the one on record
+				restarts++
+				aop.TSOffset = 5 * restarts
+			} else {
+				aop.TSOffset = 5 * restarts
+			}
+			o := run.Exec(aop)
 			if o.NoResp {
 				return fmt.Errorf("step %d: Association Setup Request not answered", i)
 			}
@@ -528,7 +537,7 @@ func runC12Setup(c c12Setup, ev *Ev) error {
 
 func TestC12Setup(t *testing.T) {
 	ev := newEv("C12")
-	ev.Rule = "fresh BESS agent per case over the 4 feature configurations (UE-IP allocation x end markers) with heartbeats off/on; generated sequences of peer heartbeats (before and after association, bursts), association attempts, and datapath down/up (harness BESS server stopped and restarted); checks: every peer heartbeat answered, one Recovery Time Stamp for the life of the association and equal to the setup response's, peer heartbeats postpone the agent's own, advertised UP features in accepted and rejected responses, acceptance iff a datapath transport connection has been up (rejection iff none) for >= 60 ms; non-trivial = a case with an accepted and a rejected association attempt"
+	ev.Rule = "fresh BESS agent per case over the 4 feature configurations (UE-IP allocation x end markers) with heartbeats off/on; generated sequences of peer heartbeats (before and after association, bursts), association attempts (repeated with the same and, for a restarted peer, with a newer Recovery Time Stamp), and datapath down/up (harness BESS server stopped and restarted); checks: every peer heartbeat answered, one Recovery Time Stamp for the life of the association and equal to the setup response's, peer heartbeats postpone the agent's own, advertised UP features in accepted and rejected responses, acceptance iff a datapath transport connection has been up (rejection iff none) for >= 60 ms; non-trivial = a case with an accepted and a rejected association attempt"
 	runProp(t, ev, "setup", true, genC12Setup, runC12Setup)
 }
 
